@@ -27,6 +27,7 @@ GSS stub (no GSS library is installed):
 session with a tested SERVER and a raw puppet client:
     ServerSession(policy, ...)   .server .puppet .srv .link .sid
         .exchange(payload, sentinel=True, expect=None) -> Step(replies, dead)
+        .rekey(by="client"|"server") -> bool   a complete key re-exchange between two exchanges
         .close()
     Every `exchange` sends the payload, then (sentinel=True) a message of the unassigned type 192
     which the tested side answers with UNIMPLEMENTED(seq): all replies logged before that answer
@@ -447,6 +448,37 @@ class ServerSession:
                 self._drain_dead()
                 return Step(self._new(), True)
         return Step(self._new(), False)
+
+    def rekey(self, by="client"):
+        """One complete key re-exchange on the running session, started by the puppet (by="client") or by the
+        tested transport (by="server": Transport.renegotiate_keys() called from a harness thread). Call it only
+        while nothing is in flight (after an `exchange`, or behind pipelined writes: the KEXINIT then simply
+        queues behind them). Returns True when the exchange completed and the puppet writes under the new keys,
+        False when the session ended instead (the caller reads the rest with `exchange(None)`).
+        Key-exchange traffic is never logged by the raw-mode puppet, so `exchange` bookkeeping is unaffected."""
+        t = self.puppet if by == "client" else self.server
+        res = {}
+
+        def go():
+            try:
+                t.renegotiate_keys()
+                res["ok"] = True
+            except Exception as e:  # the session ended during / instead of the exchange
+                res["exc"] = e
+
+        th = threading.Thread(target=go, daemon=True)
+        th.start()
+        th.join(TIMEOUT)
+        if th.is_alive():
+            raise core.HarnessError("renegotiate_keys() (by %s) neither completed nor failed" % by)
+        if not res.get("ok"):
+            return False
+        # the puppet's outbound keys are switched before its own exchange is wound up (clear_to_send set again)
+        cts = getattr(self.puppet, "clear_to_send", None)
+        end = time.time() + TIMEOUT
+        while cts is not None and not cts.is_set() and self.puppet.is_active() and self.server.is_active() and time.time() < end:
+            time.sleep(0.001)
+        return self.puppet.is_active() and self.server.is_active()
 
     def authed(self):
         """Every view of 'the server considers the client authenticated'."""
